@@ -112,8 +112,12 @@ def walk(node, d, t, path, out, C, parent_ticked, is_child=False):
             # the list's own delta must name exactly the children that were written in this cycle
             C["list_delta_index_checks"] = C.get("list_delta_index_checks", 0) + 1
             want = {i for i, ch in enumerate(node.children) if ch.lmt == t}
+            if node.shape[1] == 0:
+                # a dynamic list names every element that was mutated in the cycle - written or invalidated on its own
+                want = set(getattr(node, "_cycle_ops", {}).get(t, {}))
             if set(d["dk"]) != want:
-                out.append((None, f"{path} t={t}: the list's delta lists indices {sorted(d['dk'])} but the children written in this cycle are {sorted(want)}"))
+                f32 = "dynamic-list-delta-drops-sibling-after-child-renotifies" if node.shape[1] == 0 and t in getattr(node, "renotified", ()) else None
+                out.append((f32, f"{path} t={t}: the list's delta lists indices {sorted(d['dk'])} but the children written in this cycle are {sorted(want)}"))
         if len(d["ch"]) != len(node.children):
             out.append((None, f"{path} t={t}: list has {len(d['ch'])} elements, expected {len(node.children)}"))
         for i, (ch, cd) in enumerate(zip(node.children, d["ch"])):
@@ -140,6 +144,8 @@ def check(case, tr):
     for src in case.meta["sources"]:
         wl = dict((t, ops) for t, ops in writes.get(src["uid"], []))
         C["invalidations"] = C.get("invalidations", 0) + sum(1 for ops in wl.values() for o in ops if o.endswith("i"))
+        C["dynamic_list_element_invalidations"] = C.get("dynamic_list_element_invalidations", 0) + \
+            (sum(1 for ops in wl.values() for o in ops if o.endswith("]i")) if src["shape"] == "dl" else 0)
         C["container_invalidations"] = C.get("container_invalidations", 0) + sum(1 for ops in wl.values() for o in ops if o == "I")
         streams = [dict((t, d) for t, d, _ in dumps.get(p, [])) for p in src["probes"]]
         mirror = dict((t, d) for t, d, _ in dumps.get(src["mirrors"][0], []))
